@@ -1149,6 +1149,58 @@ theorem good_delNs {s : Sheet} {p : Cps} (h : Good s) : Good (delNs s p).1 := by
     | error e => exact h
     | ok s' => exact good_deleteRule h hd
 
+/-- the rule followed by `cleanPos` is where `cleanPos` says it is -/
+theorem cleanPos_get (items : Dict) (done rest : List Rule) (pos j : Nat) (r : Rule)
+    (h : (done ++ rest)[pos]? = some r) (hj : cleanPos items done rest pos = some j) :
+    (cleanGo items done rest).1[j]? = some r := by
+  induction rest generalizing done pos with
+  | nil =>
+    simp only [cleanPos, Option.some.injEq] at hj
+    subst hj
+    simpa [cleanGo] using h
+  | cons x t ih =>
+    cases x with
+    | ns n =>
+      simp only [cleanPos] at hj
+      simp only [cleanGo]
+      by_cases h1 : (n.pfx, n.uri) ∈ items
+      · simp only [h1, if_true] at hj ⊢
+        exact ih _ _ (by simpa using h) hj
+      · simp only [h1, if_false] at hj ⊢
+        by_cases h2 : delBlocked (done ++ Rule.ns n :: t) n.uri = true
+        · simp only [h2, if_true, Option.some.injEq] at hj ⊢
+          subst hj; exact h
+        · simp only [h2, Bool.false_eq_true, if_false] at hj ⊢
+          by_cases h3 : pos = done.length
+          · simp [h3] at hj
+          · simp only [h3, if_false] at hj
+            by_cases h4 : pos > done.length
+            · simp only [h4, if_true] at hj
+              apply ih _ _ _ hj
+              rw [List.getElem?_append_right (by omega)] at h ⊢
+              have : pos - done.length = (pos - 1 - done.length) + 1 := by omega
+              rw [this, List.getElem?_cons_succ] at h
+              exact h
+            · simp only [h4, if_false] at hj
+              apply ih _ _ _ hj
+              have hlt : pos < done.length := by omega
+              rw [List.getElem?_append_left hlt] at h ⊢
+              exact h
+    | style y => simp only [cleanPos] at hj; simp only [cleanGo]; exact ih _ _ (by simpa using h) hj
+    | media y => simp only [cleanPos] at hj; simp only [cleanGo]; exact ih _ _ (by simpa using h) hj
+    | other y => simp only [cleanPos] at hj; simp only [cleanGo]; exact ih _ _ (by simpa using h) hj
+
+theorem bodyRules_eraseIdx_ns {l : Sheet} {j : Nat} {n : NsRule} (h : l[j]? = some (.ns n)) :
+    bodyRules (l.eraseIdx j) = bodyRules l := by
+  obtain ⟨pre, post, rfl, rfl⟩ := split_at h
+  rw [eraseIdx_split]
+  simp [bodyRules_append, bodyRules, Rule.isNs]
+
+theorem insertAt_get (s : Sheet) (i : Nat) (r : Rule) (hi : i ≤ s.length) : (insertAt s i r)[i]? = some r := by
+  unfold insertAt
+  rw [List.getElem?_append_right (by simp; omega)]
+  simp [List.length_take, Nat.min_eq_left hi]
+
 /-! ## namespace operations never touch the other rules (T15.3, first half) -/
 
 theorem bodyRules_insertAt_ns (s : Sheet) (i : Nat) (r : NsRule) : bodyRules (insertAt s i (.ns r)) = bodyRules s := by
@@ -1156,7 +1208,7 @@ theorem bodyRules_insertAt_ns (s : Sheet) (i : Nat) (r : NsRule) : bodyRules (in
   rw [show bodyRules (Rule.ns r :: s.drop i) = bodyRules (s.drop i) by simp [bodyRules, Rule.isNs],
     ← bodyRules_append, List.take_append_drop]
 
-theorem body_insertNsAt (s : Sheet) (r : NsRule) (index : Nat) (clean : Bool) :
+theorem body_insertNsAt (s : Sheet) (r : NsRule) (index : Nat) (clean : Bool) (hi : index ≤ s.length) :
     bodyRules (insertNsAt s r index clean).1 = bodyRules s := by
   unfold insertNsAt
   split
@@ -1168,18 +1220,69 @@ theorem body_insertNsAt (s : Sheet) (r : NsRule) (index : Nat) (clean : Bool) :
       simp only [List.nil_append, bodyRules_insertAt_ns] at this
       simp only [if_true, cleanNamespaces]
       by_cases h1 : (cleanGo (view (insertAt s index (Rule.ns r))) [] (insertAt s index (Rule.ns r))).snd = true
-      · simp only [h1, if_true]; exact this
+      · simp only [h1, if_true]
+        cases hp : cleanPos (view (insertAt s index (Rule.ns r))) [] (insertAt s index (Rule.ns r)) index with
+        | none => exact this
+        | some j =>
+          simp only
+          have hg := cleanPos_get _ [] _ index j (.ns r) (by simpa using insertAt_get s index (.ns r) hi) hp
+          rw [bodyRules_eraseIdx_ns hg]; exact this
       · simp only [h1, if_false]
         by_cases h2 : (r.pfx, r.uri) ∈ view (insertAt s index (Rule.ns r))
         · simp only [h2, if_true]; exact this
         · simp only [h2, if_false]; exact this
+
+theorem nsInOrderIndex_le (s : Sheet) (i : Nat) (hi : i ≤ s.length) : nsInOrderIndex s i ≤ s.length := by
+  have hl : ∀ (p : Rule → Bool) (l : List Rule) (k : Nat), lastIdx p l = some k → k < l.length := by
+    intro p l
+    induction l with
+    | nil => intro k h; simp [lastIdx] at h
+    | cons a t ih =>
+      intro k h
+      simp only [lastIdx] at h
+      cases ht : lastIdx p t with
+      | some m => simp only [ht, Option.some.injEq] at h; subst h; have := ih m ht; simp; omega
+      | none =>
+        simp only [ht] at h
+        split at h
+        · simp only [Option.some.injEq] at h; subst h; simp
+        · simp at h
+  unfold nsInOrderIndex
+  split
+  · rename_i k hk; have := hl _ _ _ hk; omega
+  · simp only
+    generalize (match lastIdx Rule.isCharsetOrImport s with
+      | some i => i + 1
+      | none => 0) = start
+    split
+    · rename_i j hj
+      have hlt := (List.findIdx?_eq_some_iff_findIdx_eq.mp hj).1
+      simp only [List.length_drop] at hlt
+      omega
+    · exact hi
+
+theorem nsPosition_le {s : Sheet} {idx : Option Nat} {io : Bool} {index : Nat}
+    (h : nsPosition s idx io = .ok index) : index ≤ s.length := by
+  unfold nsPosition at h
+  simp only at h
+  split at h
+  · simp at h
+  · rename_i hlen
+    split at h
+    · simp only [Except.ok.injEq] at h; subst h; exact nsInOrderIndex_le _ _ (by omega)
+    · split at h
+      · simp at h
+      · split at h
+        · simp at h
+        · simp only [Except.ok.injEq] at h; subst h; omega
 
 theorem body_insertNs (s : Sheet) (r : NsRule) (idx : Option Nat) (io clean : Bool) :
     bodyRules (insertNs s r idx io clean).1 = bodyRules s := by
   unfold insertNs
   split
   · rfl
-  · exact body_insertNsAt _ _ _ _
+  · rename_i index hp
+    exact body_insertNsAt _ _ _ _ (nsPosition_le hp)
 
 theorem body_set_ns {pre post : Sheet} {n m : NsRule} :
     bodyRules (pre ++ .ns m :: post) = bodyRules (pre ++ .ns n :: post) := by
@@ -1556,6 +1659,9 @@ theorem cleanGo_sub (items : Dict) (done rest : List Rule) :
     | media y => simp only [cleanGo] at hr; have := ih _ r hr; simpa using this
     | other y => simp only [cleanGo] at hr; have := ih _ r hr; simpa using this
 
+theorem allGood_sub {s s' : Sheet} (h : AllGoodNs s) (hs : ∀ r ∈ s', r ∈ s) : AllGoodNs s' :=
+  fun n hn => h n (hs _ hn)
+
 theorem allGood_insertNs {s : Sheet} {n : NsRule} (idx : Option Nat) (io clean : Bool) (h : AllGoodNs s)
     (hn : n.good = true) : AllGoodNs (insertNs s n idx io clean).1 := by
   have hins : ∀ i, AllGoodNs (insertAt s i (.ns n)) := by
@@ -1581,7 +1687,10 @@ theorem allGood_insertNs {s : Sheet} {n : NsRule} (idx : Option Nat) (io clean :
           have := cleanGo_sub _ [] _ _ hm
           exact hins index m (by simpa using this)
         split
-        · exact hc
+        · simp only
+          split
+          · exact allGood_sub hc (fun r hr => (List.eraseIdx_sublist _ _).subset hr)
+          · exact hc
         · split <;> exact hc
 
 theorem allGood_set {pre post : Sheet} {n m : NsRule} (h : AllGoodNs (pre ++ .ns n :: post)) (hm : m.good = true) :
@@ -1592,9 +1701,6 @@ theorem allGood_set {pre post : Sheet} {n m : NsRule} (h : AllGoodNs (pre ++ .ns
   · exact h x (by simp [hx])
   · cases hx; exact hm
   · exact h x (by simp [hx])
-
-theorem allGood_sub {s s' : Sheet} (h : AllGoodNs s) (hs : ∀ r ∈ s', r ∈ s) : AllGoodNs s' :=
-  fun n hn => h n (hs _ hn)
 
 theorem deleteRule_sub {s s' : Sheet} {i : Nat} (h : deleteRule s i = .ok s') : ∀ r ∈ s', r ∈ s := by
   unfold deleteRule at h
